@@ -5,6 +5,7 @@ import json, os, shutil, sys
 HERE = os.path.dirname(os.path.abspath(__file__))
 sys.path.insert(0, HERE)
 import tla
+from props import tracker_common as tc
 VERIF = os.path.dirname(HERE)
 
 def main():
@@ -39,9 +40,11 @@ def main():
             outl = []
             for i, beh in enumerate(behs):
                 a = beh[-1]["state"]["act"]
-                outl.append({"goal": "cover-%s-%d:%s" % (name, i, a.get("name")), "tag": [a.get("name"), a.get("br")],
-                             "cfg": cfg, "K": consts["K"], "Q": consts["Q"],
-                             "cids": sorted(beh[0]["state"]["st"].keys()), "behaviour": beh})
+                goal = "cover-%s-%d:%s" % (name, i, a.get("name"))
+                sc = tc.to_script(beh, "w-" + goal, consts["K"], consts["Q"], sorted(beh[0]["state"]["st"].keys()))
+                if sc:
+                    sc["tags"] = sorted(set(sc["tags"]) | {"witness:cover"})
+                    outl.append({"goal": goal, "tag": [a.get("name"), a.get("br")], "cfg": cfg, "script": sc})
             json.dump(outl, open(os.path.join(VERIF, "spec", "witness", "trackercover_%s.json" % name), "w"))
             print(cfg, len(behs), "witnesses", "%.0fs" % r.wall, "distinct", r.distinct)
     finally:
